@@ -91,7 +91,7 @@ package lexer
 //@   pure
 //@   ensures result != nil && result == &p.tokens[p.rawCursor]
 
-//@ func (*PeekingLexer).Next [C12 C10 C06]
+//@ func (*PeekingLexer).Next [C12 C10 C06 C11]
 //@   no-recursion
 //@   requires plInv(p)
 //@   modifies p.Checkpoint
@@ -101,7 +101,7 @@ package lexer
 //@   ensures !eofAt(p, old(p.nextCursor)) ==> p.rawCursor == old(p.nextCursor)+1 && p.cursor == old(p.cursor)+1
 //@   use cntSkip(p, old(p.rawCursor), old(p.nextCursor)) at entry
 
-//@ func (*PeekingLexer).advanceToNonElided [C12 C06]
+//@ func (*PeekingLexer).advanceToNonElided [C12 C06 C11]
 //@   no-recursion
 //@   requires streamOK(p) && 0 <= p.rawCursor && p.rawCursor <= p.nextCursor && p.nextCursor <= eofIdx(p)
 //@   requires forall(k, p.rawCursor, p.nextCursor, elidedAt(p, k))
@@ -122,7 +122,7 @@ package lexer
 //@   loop 1 invariant forall(k, p.rawCursor, i, !match(p.tokens[k]))
 //@   loop 1 decreases p.nextCursor - i
 
-//@ func (*PeekingLexer).FastForward [C12 C10 C06]
+//@ func (*PeekingLexer).FastForward [C12 C10 C06 C11]
 //@   no-recursion
 //@   requires plInv(p)
 //@   modifies p.Checkpoint
@@ -203,12 +203,12 @@ package lexer
 //@   requires lastnl(s) >= 0
 //@   ensures rcount(s[lastnl(s):]) == 1 + rcount(s[lastnl(s)+1:])
 
-//@ func (*Position).Advance [C04 C07]
+//@ func (*Position).Advance [C04 C07 C06]
 //@   ghost in string
 //@   modifies *p
 //@   ensures p.Offset == old(p.Offset) + len(span) && p.Filename == old(p.Filename)
 //@   ensures @posOK old(posOK(in, *p)) && old(p.Offset) + len(span) <= len(in) && span == in[old(p.Offset):old(p.Offset)+len(span)]
-//@        && cutok(in[lineStart(in, old(p.Offset)):old(p.Offset)], span) ==> posOK(in, *p)  [C04]
+//@        && cutok(in[lineStart(in, old(p.Offset)):old(p.Offset)], span) ==> posOK(in, *p)  [C04 C06]
 //@   use subSplit(in, 0, p.Offset, p.Offset + len(span)) at entry
 //@   use nlcCat(in[:p.Offset], span) at entry
 //@   use nlFacts(span) at entry
